@@ -315,10 +315,9 @@ def textLit (t : Key) : String :=
 def docLit (c : Codec) (escAll sp : Bool) (j : J) : String := textLit (J.text c.yaml escAll sp j)
 
 /-- document cases: decode, decode∘encode∘decode, and the re-encoded document seen by the strict decoder -/
-def docCase (id : String) (c : Codec) (j : J) (mode : Nat) (escAll sp : Bool) : Case :=
-  let lit := docLit c escAll sp j
+def docCaseWith (lit tag : String) (id : String) (c : Codec) (j : J) (mode : Nat) : Case :=
   let dup := c.yaml && j.hasDupKeys
-  let pre := c.name ++ "/"
+  let pre := c.name ++ "/" ++ tag
   let frag := c.yaml && j.yamlFragile && !dup
   match mode with
   | 0 =>
@@ -353,6 +352,74 @@ def docCase (id : String) (c : Codec) (j : J) (mode : Nat) (escAll sp : Bool) : 
       else if j.hasEmptyish && !dup then "KF-json-nonstrict-empty" else "good"
     evalCase id (pre ++ "reencoded-doc-nonstrict") cls
       s!"{decSrc c true}({encSrc c false}({decSrc c false}({lit})))" m s
+
+def docCase (id : String) (c : Codec) (j : J) (mode : Nat) (escAll sp : Bool) : Case :=
+  docCaseWith (docLit c escAll sp j) "" id c j mode
+
+/-! YAML mappings with NON-STRING scalar keys (ints, floats, bools, null), mixed with string keys and nested:
+`ToArrai` stringifies such keys with `%v` (1 → "1", 1e3 → "1000", null → "<nil>"), so the decoded value is an
+ordinary string-keyed dict and decode→encode→decode is stable.  The document is generated as its stringified
+tree `j`; the text writes the keys that have a bare form as bare scalars. -/
+
+/-- (stringified key, bare YAML scalars that denote it) -/
+def bareKeys : List (String × List String) :=
+  [("1", ["1", "0x1", "+1"]), ("7", ["7"]), ("-3", ["-3"]), ("0", ["0"]), ("42", ["42", "0x2A", "0o52"]),
+   ("1000", ["1e3", "1000", "1000.0"]), ("2.5", ["2.5", "25e-1"]), ("-0.5", ["-0.5", "-.5"]), ("0.1", ["0.1"]),
+   ("true", ["true", "True"]), ("false", ["false", "FALSE"]), ("<nil>", ["null", "~", "Null"]),
+   ("9007199254740993", ["9007199254740993"]), ("1e+21", ["1e21"])]
+
+def bareOf (k : Key) (pickIdx : Nat) : Option String :=
+  match bareKeys.find? (fun p => keyOf p.1 == k) with
+  | some (_, forms) => forms[pickIdx % forms.length]?
+  | none => none
+
+mutual
+/-- YAML flow text of `j` whose object keys are written bare when they have a bare form -/
+def J.textBare (n : Nat) : J → String
+  | .arr xs => "[" ++ ", ".intercalate (J.textBareList n xs) ++ "]"
+  | .obj kvs => "{" ++ ", ".intercalate (J.textBareKvs n kvs) ++ "}"
+  | j => nameOf (J.text true true false j)
+def J.textBareList (n : Nat) : List J → List String
+  | [] => []
+  | x :: r => J.textBare n x :: J.textBareList (n + 1) r
+def J.textBareKvs (n : Nat) : List (Key × J) → List String
+  | [] => []
+  | (k, v) :: r =>
+    ((match bareOf k n with
+      | some b => b
+      | none => nameOf (textStr true true k)) ++ ": " ++ J.textBare (n + 1) v) :: J.textBareKvs (n + 3) r
+end
+
+def genKeyedJ : Nat → Gen J
+  | 0 => do
+    let r ← rand 6
+    if r < 2 then pure (.num (← genInt)) else if r < 4 then pure (.str (← genAsciiStr 3))
+    else if r < 5 then pure .null else pure (.bool true)
+  | d + 1 => do
+    let r ← rand 8
+    if r < 1 then genKeyedJ 0
+    else if r < 3 then pure (.arr (← genList ((← rand 3) + 1) (genKeyedJ d)))
+    else
+      let n ← rand 3
+      let nonStr ← pickDistinct (bareKeys.map (fun p => keyOf p.1)) (n + 1)
+      let strs ← pickDistinct [[97], [98], [107], [120, 121]] (← rand 3)
+      let ks := if (← chance 1 2) then nonStr ++ strs else strs ++ nonStr
+      pure (.obj (← ks.mapM (fun k => do pure (k, ← genKeyedJ d))))
+
+/-- the text as an arr.ai string literal (ASCII only here) -/
+def asciiLit (t : String) : String :=
+  match strLit (keyOf t) with
+  | some l => "'" ++ l ++ "'"
+  | none => bytesLit (keyOf t)
+
+def keyedCase (id : String) (j : J) (mode salt : Nat) : Case :=
+  let lit := asciiLit (J.textBare salt j)
+  if mode < 6 then docCaseWith lit "non-string-keys/" id ⟨"yaml", true⟩ j mode
+  else
+    -- the decoded value re-encoded as JSON
+    let o := (toArrai true j.norm).den.canon
+    evalCase id "yaml/non-string-keys/reencode-as-json" "good"
+      s!"//encoding.json.decode(//encoding.json.encode(//encoding.yaml.decode({lit})))" o o
 
 /-- encode an arbitrary value, read the document back with the strict decoder -/
 def encCase (id : String) (c : Codec) (v : R) (strict : Bool) : Case :=
@@ -808,8 +875,11 @@ def genCsvCfgCase (id : String) : Gen Case := do
 def genCase (idx : Nat) (big : Bool) : Gen Case := do
   let id := s!"C13-{idx}"
   let depth := if big then 3 else 2
-  let r ← rand 127
-  if r ≥ 119 then genCsvCfgCase id
+  let r ← rand 132
+  if r ≥ 127 then do
+    let j ← genKeyedJ (depth - 1)
+    pure (keyedCase id j (← rand 7) (← rand 6))
+  else if r ≥ 119 then genCsvCfgCase id
   else if r ≥ 114 then genNonFiniteCase id
   else if r ≥ 100 then genMultiCase id (depth - 1)
   else if r < 30 then
@@ -918,6 +988,10 @@ def corpus : List Case :=
     csvCfgCase "C13-corpus-49" 59 [[[97, 59, 98], [99]]] 0,
     csvCfgCase "C13-corpus-50" 59 [[[97, 59, 98], [99]]] 1,
     csvCfgCase "C13-corpus-51" 9 [[[97], [98]], [[99, 9, 100], [101]]] 0,
+    -- YAML mappings with non-string keys
+    keyedCase "C13-corpus-52" (.obj [(keyOf "1", .str [97]), ([98], .num 2)]) 2 0,
+    keyedCase "C13-corpus-53" (.obj [([120], .arr [.obj [(keyOf "7", .arr [.num 1, .num 2])]])]) 4 0,
+    keyedCase "C13-corpus-54" (.obj [(keyOf "2.5", .obj []), (keyOf "<nil>", .num 1), (keyOf "true", .null)]) 6 0,
     -- configuration forms of the codecs
     evalCase "C13-corpus-34" "corpus" "good"
       "//encoding.json.decode(//encoding.json.encode_indent((a: [1, (s: 'x<>&'), {'k': ()}])))"
